@@ -96,6 +96,9 @@ def execFn (name : String) (fields : List String) : M Unit := do
       if x.isFinite then
         if F64.parseFloat (serF x) != some x then fail s!"FmtContract.parse_back fails for {d}"
         if (parseIntBase0 (serF x)).isSome then fail s!"FmtContract.not_int fails for {d}"
+        match Strict.number (serF x) with
+        | some (some (.float y), []) => if y.bits != x.bits then fail s!"FmtContract.strict fails for {d}"
+        | _ => fail s!"FmtContract.strict fails for {d}"
     | none => fail "protocol"
   | "itoa", [i, obs] =>
     let v ← intArg i
